@@ -25,12 +25,17 @@ def setup():
 def main(argv=None):
     par = argparse.ArgumentParser()
     par.add_argument('pid')
+    par.add_argument('targets', nargs='*')
     par.add_argument('--tier', default=None)
     par.add_argument('--seed', default=None)
     par.add_argument('--replay', default=None)
     args = par.parse_args(argv)
     if args.pid == 'setup':
         return setup()
+    if args.pid == 'build':      # ./check build C14/Proofs.vo ...   (only these targets)
+        ok, out = common.coq_make(args.targets)
+        print(out[-6000:])
+        return 0 if ok else 1
     pid = args.pid.upper()
     mod = importlib.import_module(pid.lower())
     ctx = common.Ctx(pid, tier=args.tier, seed=args.seed)
